@@ -97,8 +97,15 @@ impl C19 {
             .collect();
         for v in pre.delegations.keys() {
             // (inside RemoveValidator the redelegation itself pays out the rewards of the validators it touches)
+            // A validator with nothing pending needs no withdraw message: what is judged is that rewards that were
+            // pending before are withdrawn in this transaction
+            let had_pending = pre.pending_rewards.get(v).map(|x| *x > 0).unwrap_or(false) || c.w_pre.rewards.iter().any(|((d, val), m)| d == HUB && val == v && m.values().any(|x| *x > 0));
             if !via_removal && !withdrawn.contains(&v) {
-                out.violation(P, "withdraw_from_every_validator", format!("hub delegates to {} but did not withdraw its rewards", v));
+                if had_pending {
+                    out.violation(P, "withdraw_from_every_validator", format!("hub delegates to {} with rewards pending but did not withdraw them", v));
+                } else {
+                    out.count("c19.validators_without_pending_rewards_not_withdrawn");
+                }
             }
         }
         if !post.pending_rewards.is_empty() && post.pending_rewards.values().any(|x| *x > 0) {
@@ -219,7 +226,9 @@ impl C19 {
                 let target_num = (Uint512::from(u0) * Uint512::from(price) + Uint512::from(k0) * Uint512::from(E18)) * Uint512::from(ps);
                 let lhs = Uint512::from(held_usei) * den;
                 let diff = if lhs > target_num { lhs - target_num } else { target_num - lhs };
-                let tol = 4 + 2 * mul_div_ceil(E18, 1, price).max(1);
+                // one received-coin unit of rounding per swap the dispatcher makes (two for the usual single swap)
+                let n_swaps = tr.execs.iter().filter(|x| x.caller == DISPATCHER && x.callee == SWAP).count().max(1) as u128;
+                let tol = 4 + (1 + n_swaps) * mul_div_ceil(E18, 1, price).max(1);
                 if diff > Uint512::from(tol) * den {
                     out.violation(
                         P,
@@ -244,7 +253,10 @@ impl C19 {
             let hi = Uint256::from(x) * Uint256::from(E18);
             // one truncation of the index increment: at most total_balance * 1e-18 coin, i.e. total_balance atomics
             let lo_slack = Uint256::from(pre.reward_total_balance);
-            if growth > hi || growth + lo_slack < hi {
+            // lower bound: what this transaction delivered (the backlog - donations and earlier deliveries not yet
+            // indexed - may be distributed now or later); upper bound: delivery plus backlog
+            let lo = Uint256::from(delivered) * Uint256::from(E18);
+            if growth > hi || growth + lo_slack < lo {
                 out.violation(P, "holders_receive_delivery", format!("delivered {} (+ backlog {}) but holders' accrued total grew by {} e-18 (expected {} e-18 minus at most {} e-18)", delivered, backlog, growth, hi, lo_slack));
             }
             if x > 0 {
@@ -286,7 +298,8 @@ impl C19 {
         // Every swap floors its output once (less than one unit of the coin received) and the dispatcher's inverse
         // price is truncated at 18 digits (less than one usei on amounts up to 1e18): at most one kusd for the
         // extra-denomination conversion plus two units of either coin for the balancing swap. Value is only ever lost.
-        let tol = Uint256::from(price.max(E18)) * Uint256::from(3u8) + Uint256::from(E18) * Uint256::from(3u8);
+        let n_swaps = tr.execs.iter().filter(|x| x.caller == DISPATCHER && x.callee == SWAP).count().max(1) as u128;
+        let tol = (Uint256::from(price.max(E18)) + Uint256::from(E18)) * Uint256::from(2 + n_swaps);
         let diff = if value_in > value_out { value_in - value_out } else { value_out - value_in };
         if diff > tol {
             out.violation(
